@@ -446,7 +446,8 @@ def run(ctx):
             if w == "typedef" and j and prv not in ("s", "typedef"): return False
             if w in ("s", "typedef") and prv in ("s", "typedef") and any(x not in ("s", "typedef") for x in t[:j]): return False   # a parameter has ONE specifier in the model
         return True
-    dstrings = [t for t in dstrings if modelled(t)]
+    # a type specifier among the leading specifiers (with `typedef` alone the parser reads the first identifier as the type: a typedef name)
+    dstrings = [t for t in dstrings if modelled(t) and "s" in list(_it.takewhile(lambda w: w in ("s", "typedef"), t))]
     dstrings = [list(x) for x in dict.fromkeys(tuple(t) for t in dstrings)]
 
     def render_d(toks):
